@@ -291,6 +291,16 @@ pub fn battery(s: &McState) -> String {
     }
     items.push(format!("fm={}", fm.join(".")));
     items.push(format!("csd={}", tri(&mut |x| b(collects::state_depth(x)(s)), d)));
+    // the combinators over an empty list, by their documentation ("iff all …" is vacuously true, "iff at least one …" false)
+    items.push(format!(
+        "emp={}{}{}{}{}{}",
+        b(invariants::all_invariants(vec![])(s).is_ok()),
+        b(goals::any_goal(vec![])(s).is_some()),
+        b(goals::all_goals(vec![])(s).is_some()),
+        b(prunes::any_prune(vec![])(s).is_some()),
+        b(collects::any_collect(vec![])(s)),
+        b(collects::all_collects(vec![])(s))
+    ));
     // the same built-in predicates kept across the states of this run vs built afresh for this state
     items.push(format!("pst={}", b(persistent_agree(s, &pnames))));
     // short-circuit of all_invariants: the counting rules record how often they were invoked
